@@ -404,6 +404,9 @@ where
                             if pr.cookie.is_empty() {
                                 break;
                             }
+                            // The search goes on with another page: the result of the page just
+                            // read is not the result of the search, and finish() must not return it.
+                            stream.res = None;
                             let ldap_ref = self.ldap.as_ref().expect("ldap_ref");
                             let mut ldap = ldap_ref.clone();
                             ldap.timeout = ldap_ref.timeout;
